@@ -952,6 +952,12 @@ def fam_naming_fixed():
 def corpus_c20(tier):
     n = 25 if tier == "quick" else 150
     cases = fam_naming_fixed()
+    # the naming clauses on the hand-written shapes of the other families
+    for fam, every_q, every_t in ((fam_expr_fixed(), 9, 3), (fam_func_fixed(), 2, 1), (fam_entity_fixed(), 12, 4), (fam_loop16_fixed(), 6, 2)):
+        for j, c in enumerate(fam):
+            if c.get("kind", "stateless") != "stateless" or j % (every_q if tier == "quick" else every_t):
+                continue
+            cases.append(dict(c, id="n" + c["id"], family="nother", params=dict(c.get("params", {}), naming=True)))
     for i in range(n):
         c = fam_expr(1000 + i)
         c = dict(c, id=f"nexpr-{i:04d}", params={"naming": True})
